@@ -32,7 +32,7 @@ import (
 func init() {
 	addRun("C18", "written files (xref tables and xref/object streams, Flate/LZW/ASCII85/RunLength streams, shared, chained and cyclic references, merged field/widget dictionaries) read by 2-4 goroutines sharing one Reader and Extractor with random mixes of Reader.Get / DecodeStream / Decode / DecodeExclusive / StoreOrLoadPair; each result compared with the same call made alone; pointer identity per (reference, type) across goroutines. A case is one file x goroutine mix; non-trivial when at least two goroutines touched a common reference.", runConcFiles)
 	addRun("C18", "independent Writers and Readers in parallel goroutines versus sequentially (identical bytes / objects), concurrent use of the predefined-CMap and CID-mapping caches; thorough tier: all real-concurrency runs repeated in a -race build, races are violations. A case is one batch of files.", runConcParallel)
-	addRun("C18race", "child process of C18 (race-detector build)", func(c *Ctx) { runConcFirstLoads(c); runConcFiles(c); runConcParallelInner(c) })
+	addRun("C18race", "child process of C18 (race-detector build)", func(c *Ctx) { runConcFirstLoads(c); runConcFiles(c); runConcParallelInner(c); runConcPoolGoroutines(c, 300) })
 	addReplay("C18", "files", replayConcFiles)
 	addReplay("C18", "parallel", func(string) (bool, string) {
 		return true, "not replayable deterministically: re-run ./check C18 thorough"
